@@ -260,6 +260,10 @@ enum Edit {
     /// a built function whose blocks carry their type as a type id (`InstrSeqType::MultiValue`) for
     /// signatures the compact block-type encoding could also express: `() -> ()` and `() -> T`
     AddTypedBlocks,
+    /// the usual find-or-add idiom for signatures `() -> R` where `R` is the result list of a
+    /// function of the module: the type found (or added) is used by a new function import, by a
+    /// call of it and by a block
+    FindOrAddTypes,
 }
 
 fn apply_edit(m: &mut Module, e: Edit, rng: &mut Rng) {
@@ -303,6 +307,46 @@ fn apply_edit(m: &mut Module, e: Edit, rng: &mut Rng) {
             }
             let id = b.finish(vec![p0, p1], &mut m.funcs);
             m.exports.add("verif_typed_blocks", id);
+        }
+        Edit::FindOrAddTypes => {
+            let mut seen: Vec<Vec<ValType>> = vec![];
+            for f in m.funcs.iter() {
+                let r = m.types.get(f.ty()).results().to_vec();
+                if !seen.contains(&r) && seen.len() < 4 {
+                    seen.push(r);
+                }
+            }
+            for (k, r) in seen.iter().enumerate() {
+                let ty = match m.types.find(&[], r) {
+                    Some(t) => t,
+                    None => m.types.add(&[], r),
+                };
+                let (imp, _) = m.add_import_func("verif", &format!("found_type_{}", k), ty);
+                let seq_ty = if r.len() >= 2 {
+                    match walrus::ir::InstrSeqType::existing(&m.types, &[], r) {
+                        Some(t) => t,
+                        None => walrus::ir::InstrSeqType::new(&mut m.types, &[], r),
+                    }
+                } else {
+                    walrus::ir::InstrSeqType::MultiValue(ty)
+                };
+                let mut b = FunctionBuilder::new(&mut m.types, &[], &[]);
+                {
+                    let mut body = b.func_body();
+                    body.call(imp);
+                    for _ in r {
+                        body.drop();
+                    }
+                    body.block(seq_ty, |x| {
+                        x.unreachable();
+                    });
+                    for _ in r {
+                        body.drop();
+                    }
+                }
+                let id = b.finish(vec![], &mut m.funcs);
+                m.exports.add(&format!("verif_found_type_{}", k), id);
+            }
         }
         Edit::DeleteExport => {
             // (an export can be the only thing that makes a `ref.func` operand a declared function;
@@ -671,6 +715,7 @@ pub fn main(seed: u64, tier: &str, only: Option<&str>) {
             "AddEntities" => Edit::AddEntities,
             "NameEverything" => Edit::NameEverything,
             "AddTypedBlocks" => Edit::AddTypedBlocks,
+            "FindOrAddTypes" => Edit::FindOrAddTypes,
             _ => Edit::None,
         };
         let mut rng = Rng::new(seed, 0);
@@ -690,7 +735,7 @@ pub fn main(seed: u64, tier: &str, only: Option<&str>) {
         let (wasm, _) = gen::gen_valid(&mut rng, &g);
         // edits only for C02 (the property that quantifies over them); others see plain modules
         let edit = if prop == "C02" {
-            [Edit::None, Edit::AddFunc, Edit::DeleteExport, Edit::AddEntities, Edit::NameEverything, Edit::None, Edit::AddTypedBlocks][case % 7]
+            [Edit::None, Edit::AddFunc, Edit::DeleteExport, Edit::AddEntities, Edit::NameEverything, Edit::FindOrAddTypes, Edit::AddTypedBlocks][case % 7]
         } else if case % 5 == 4 {
             Edit::DeleteExport
         } else if prop == "C07" && case % 5 == 2 {
